@@ -14,7 +14,7 @@ RULE = ("C01 frames with adversarial distributions (extremes on page boundaries,
         "distinct = distinct (kinds, null patterns, dpv, stats setting, row-group split) tuples")
 ASSUMPTIONS = ["ground truth = what vf/ref decodes from the chunk (describes what is stored, not what was intended)",
                "+0.0 and -0.0 are treated as equal bounds; NaN is ignored for bounds (format rule)"]
-CASE_TIMEOUT = 300
+CASE_TIMEOUT = 120
 
 from vf.gen import frames as F
 from vf.gen import options as O
